@@ -9,7 +9,7 @@
 EXTENDS Integers, Sequences, FiniteSets, TLC, Json, IOUtils, TLCExt
 Runs == JsonDeserialize(IOEnv.TRACE_FILE)
 VARIABLES rid, done
-Ev(t, x) == CASE t = "A" -> {<<"a", x + 1>>}
+Ev(t, x) == CASE t \in {"A", "D", "E"} -> {<<"a", x + 1>>}          \* D, E: two threads with the very same selector text
               [] t = "B" -> {<<"b", (x + 1) * 2>>}
               [] t = "C" -> {<<"a", x + 1>>, <<"b", (x + 1) * 2>>}
 Got(th) == [i \in DOMAIN th.events |-> {<<th.events[i][j][1], th.events[i][j][2]>> : j \in DOMAIN th.events[i]}]
